@@ -25,6 +25,9 @@ func ModHex(cert *x509.Certificate) (modhex string, err error) {
 		//
 		// Starting from the third byte is the actual data expressed in big-endian.
 		if ext.Id.String() == "1.3.6.1.4.1.41482.3.7" {
+			if len(ext.Value) < 2 {
+				return "", fmt.Errorf("invalid serial number extension length: %v", len(ext.Value))
+			}
 			serial = ext.Value[2:]
 		}
 	}
